@@ -1,5 +1,6 @@
 CONSTANTS
-  Cases <- X01Thorough
+  Groups <- X01ThoroughGroups
+  CasesOf <- X01Thorough
 INIT Init
 NEXT Next
 INVARIANT Conforms
